@@ -1,6 +1,6 @@
 (* C12 — Logical functions are truth-functional; type predicates classify values.
    Property theorems only; proofs are in Proofs/LogicProofs.v, Proofs/LogicAlgebra.v and Proofs/ValueProofs.v. *)
-From HX Require Import Model.Value Model.Logic Model.LogicShape Gen.LogicFns Proofs.ValueProofs Proofs.LogicProofs Proofs.LogicAlgebra Proofs.LogicSource.
+From HX Require Import Model.Value Model.Logic Model.LogicShape Gen.LogicFns Proofs.ValueProofs Proofs.LogicProofs Proofs.LogicAlgebra Proofs.LogicSource Model.PredShape Gen.PredFns Proofs.PredSource.
 From Coq Require Import Permutation.
 Open Scope Z_scope.
 
@@ -137,6 +137,24 @@ Theorem C12_source_error_in_condition : forall args pre post e, flatten_args arg
   run_variadic gen_AND args = Ret (VErr e) /\ run_variadic gen_OR args = Ret (VErr e) /\ run_variadic gen_XOR args = Ret (VErr e).
 Proof. exact source_error_first. Qed.
 
+(* the source terms of the predicates (Gen/PredFns.v, regenerated from information.py on every run) ARE the model
+   predicates (Proofs/PredSource.v); exclusivity restated on the source terms *)
+Theorem C12_source_predicates_are_the_model : forall v,
+  peval v gen_ISNUMBER = p_ISNUMBER v /\ peval v gen_ISTEXT = p_ISTEXT v /\ peval v gen_ISLOGICAL = p_ISLOGICAL v /\
+  peval v gen_ISBLANK = p_ISBLANK v /\ peval v gen_ISERROR = p_ISERROR v /\ peval v gen_ISERR = p_ISERR v /\
+  peval v gen_ISNA = p_ISNA v /\ peval v gen_ISNONTEXT = p_ISNONTEXT v.
+Proof. exact source_predicates_are_model. Qed.
+Theorem C12_source_parity_is_the_model : forall v, run_parity gen_ISEVEN v = fn_ISEVEN v /\ run_parity gen_ISODD v = fn_ISODD v.
+Proof. exact source_parity_is_model. Qed.
+Theorem C12_source_predicates_understood : pred_gen_ok = true.
+Proof. exact source_predicates_understood. Qed.
+Theorem C12_source_ISERROR_split : forall v, peval v gen_ISERROR = peval v gen_ISERR || peval v gen_ISNA.
+Proof.
+  intros v. destruct (source_predicates_are_model v) as (_ & _ & _ & _ & E & R & N & _). rewrite E, R, N. exact (ISERROR_split v).
+Qed.
+
+Print Assumptions C12_source_predicates_are_the_model.
+Print Assumptions C12_source_parity_is_the_model.
 Print Assumptions C12_source_functions_are_the_model.
 Print Assumptions C12_order_free.
 Print Assumptions C12_de_morgan.
